@@ -3,6 +3,7 @@ package rules
 import (
 	"fmt"
 	"go/ast"
+	"go/token"
 	"go/types"
 	"sort"
 	"strings"
@@ -635,6 +636,10 @@ func checkGuardedBy(r *core.Report, rule string, gf guardedField) {
 				r.OK(rule, key, pos(r, a.sel), kind+" of "+gf.Field+" with "+gf.Mutex+" held in this function")
 				continue
 			}
+			if underConstruction(f, a.sel) {
+				r.OK(rule, key, pos(r, a.sel), kind+" of "+gf.Field+" on an object this function has just created and not yet handed out")
+				continue
+			}
 			ok, trail := heldInCallers(f, modes, 0, nil)
 			r.Check(ok, rule, key, pos(r, a.sel), kind+" of "+gf.Field+": every call site of "+f.Key+" holds "+gf.Mutex,
 				fmt.Sprintf("%s of %s.%s is not protected by %s (mode %s) on every path", kind, gf.Type, gf.Field, gf.Mutex, modes), trail...)
@@ -662,4 +667,71 @@ func markWrite(info *types.Info, e ast.Expr, field *types.Var, out map[*ast.Sele
 		}
 		return
 	}
+}
+
+// underConstruction: sel is v.field where v is a local of f bound once to new(T) / &T{...} / T{...}, and before this access
+// (in source order) v has not been handed to a call, a go statement, a send, a return or another variable: no other
+// goroutine can see the object yet, so no lock is needed (constructors written as `m := new(T); m.field = ...`).
+func underConstruction(f *core.Func, sel *ast.SelectorExpr) bool {
+	info := f.Pkg.TypesInfo
+	id, ok := core.Unparen(sel.X).(*ast.Ident)
+	if !ok {
+		return false
+	}
+	v, isVar := info.Uses[id].(*types.Var)
+	if !isVar || v.IsField() || isParamOf(f, v) || (f.RecvObj() != nil && f.RecvObj() == v) {
+		return false
+	}
+	d := singleDef(f, v)
+	if d == nil {
+		return false
+	}
+	fresh := false
+	switch x := core.Unparen(d).(type) {
+	case *ast.CallExpr:
+		fresh = core.BuiltinName(info, x) == "new"
+	case *ast.UnaryExpr:
+		if x.Op == token.AND {
+			_, fresh = core.Unparen(x.X).(*ast.CompositeLit)
+		}
+	case *ast.CompositeLit:
+		fresh = true
+	}
+	if !fresh {
+		return false
+	}
+	escaped := false
+	ast.Inspect(f.Body, func(m ast.Node) bool {
+		if m == nil || escaped || m.Pos() >= sel.Pos() {
+			return !escaped && (m == nil || m.Pos() < sel.Pos())
+		}
+		switch x := m.(type) {
+		case *ast.CallExpr:
+			for _, a := range x.Args {
+				if core.Mentions(info, a, v) {
+					escaped = true
+				}
+			}
+			if s, ok := core.Unparen(x.Fun).(*ast.SelectorExpr); ok && core.ObjOf(info, s.X) == types.Object(v) {
+				// a method call on the object may publish it
+				escaped = true
+			}
+		case *ast.GoStmt, *ast.SendStmt, *ast.ReturnStmt, *ast.FuncLit:
+			if core.Mentions(info, x, v) {
+				escaped = true
+			}
+		case *ast.AssignStmt:
+			for i, rh := range x.Rhs {
+				if core.Mentions(info, rh, v) && i < len(x.Lhs) {
+					if lid, ok := core.Unparen(x.Lhs[i]).(*ast.Ident); !ok || info.ObjectOf(lid) != types.Object(v) {
+						if ls, ok := core.Unparen(x.Lhs[i]).(*ast.SelectorExpr); !ok || core.ObjOf(info, ls.X) != types.Object(v) {
+							escaped = true
+						}
+					}
+				}
+			}
+		}
+		return true
+	})
+	return !escaped
 }
